@@ -6,7 +6,7 @@ SPEC = {
     ],
     "assumptions": [
         "mapping trees and diff trees have pairwise distinct keys per map (IndexMap invariant) and every names row has one cell per namespace (const generic N)",
-        "the target namespace of apply_to is not the first namespace (Names::change_name refuses it; keys live there); with the first namespace as target the model still follows the code (correspondence stream arbitrary-first-namespace), but no exactness theorem is stated",
+        "apply theorems hold for every target namespace index; with the first namespace as target every name action is refused (C04_change_name), comment actions are applied",
         "inverse law: A and B are well-formed (Quill.Mappings.wf) two-namespace sets with the same, pairwise different namespace names, and every entry has a second-namespace name (named) - exactly the domain on which diff is defined (C04_diff_ok_iff)",
         "text form: names are valid per duke's checked constructors and contain no TAB/LF/CR, parameter indices fit usize, the mappings-level comment is the same on both sides (the text form has no line for it)",
     ],
